@@ -29,6 +29,22 @@ string to_hex(string s) {
 
 void do_ops(string ops, string ctx);
 
+// log uid / euid of every registered object
+void uid_snapshot() {
+  mapping all = "/reg"->all();
+  string *ks = keys(all);
+  string s = "";
+  int i;
+  mixed eu;
+  for (i = 0; i < sizeof(ks); i++) {
+    if (!all[ks[i]]) continue;
+    eu = geteuid(all[ks[i]]);
+    if (s != "") s += ",";
+    s += "[" + jq(ks[i]) + "," + jq(getuid(all[ks[i]])) + "," + jq(eu ? eu : "0") + "]";
+  }
+  vlog("\"e\":\"Uids\",\"l\":[" + s + "]");
+}
+
 // deterministic message text; tools/c14.py builds the same text
 string make_msg(int m, int len, string pat) {
   string base = "abcdefghijklmnopqrstuvwxyz";
@@ -133,6 +149,34 @@ void do_op(string op, string ctx) {
   case "quit":
     vlog("\"e\":\"Quit\",\"u\":" + jq(me()));
     remove_interactive(this_object());
+    break;
+  case "new":     // new:NAME:FILE   clone FILE from this object (uid rules apply to this object as the loader)
+  case "ld":      // ld:NAME:FILE    load FILE from this object
+    rest = catch(o = (f[0] == "new" ? new(f[2]) : load_object(f[2])));
+    if (rest || !o)
+      vlog("\"e\":\"CreateRefused\",\"by\":" + jq(me()) + ",\"file\":" + jq(f[2]));
+    else {
+      "/reg"->put(f[1], o);
+      vlog("\"e\":\"Create\",\"by\":" + jq(me()) + ",\"ob\":" + jq(f[1]) + ",\"file\":" + jq(f[2]) + ",\"fname\":" + jq(file_name(o)));
+    }
+    uid_snapshot();
+    break;
+  case "seu":     // seu:X   seteuid(X) ; X = 0 | own | a uid
+    if (f[1] == "0") r = seteuid(0);
+    else r = seteuid(f[1] == "own" ? getuid(this_object()) : f[1]);
+    vlog("\"e\":\"Seteuid\",\"ob\":" + jq(me()) + ",\"x\":" + jq(f[1] == "own" ? getuid(this_object()) : f[1]) + ",\"ret\":" + r);
+    uid_snapshot();
+    break;
+  case "exp":     // exp:TARGET   export_uid(TARGET)
+    o = ob_of(f[1]);
+    if (!o) break;
+    rest = catch(r = export_uid(o));
+    if (rest) vlog("\"e\":\"ExportErr\",\"from\":" + jq(me()) + ",\"to\":" + jq(f[1]));
+    else vlog("\"e\":\"Export\",\"from\":" + jq(me()) + ",\"to\":" + jq(f[1]) + ",\"ret\":" + r);
+    uid_snapshot();
+    break;
+  case "uids":
+    uid_snapshot();
     break;
   case "clr":
     map_delete(scripts, f[1]);
